@@ -30,6 +30,13 @@ def fiin_cases(rng, tier, n0):
         out.append(Case([{"op": "meta.fiin", "case": n, "files": [{"name": B(nm), "content": [rng.randrange(256) for _ in range(nl % 7)]}]}],
                         desc={"fiin": [{"name": nm, "len": nl % 7}]}, key="fiin-name-%d" % nl))
         n += 1
+    # names with multi-byte characters: the field is 64 BYTES wide (2- and 3-byte characters, up to the full field)
+    for nm in ["é", "日本語.dat", "a" + "é" * 20, "é" * 32, "日" * 21 + "a", "x" * 62 + "é", "ｆｕｌｌ.bin", "naïve file.txt"]:
+        assert len(nm.encode()) <= 64
+        out.append(Case([{"op": "meta.fiin", "case": n, "files": [{"name": list(nm.encode()), "content": [rng.randrange(256) for _ in range(5)]},
+                                                                   {"name": B("after"), "content": [1, 2, 3]}]}],
+                        desc={"fiin": [{"name": nm, "len": 5}, {"name": "after", "len": 3}]}, key="fiin-utf8-%d" % n))
+        n += 1
     # padding edges around 1 KiB and 64 KiB, multi-file sets
     edges = [55, 56, 63, 64, 119, 120]
     bigs = [1024 - 64 + e for e in edges] + ([65536 - 64 + e for e in edges[:3]] if tier == "quick"
